@@ -19,8 +19,8 @@ def ref_ident_prefix(text, off):
     if off > len(b): return None
     i = off
     while i > 0 and is_ident(b[i - 1]): i -= 1
-    try: return (i, b[i:off].decode())
-    except UnicodeDecodeError: return None
+    if (off < len(b) and (b[off] & 0xC0) == 0x80) or (i < len(b) and (b[i] & 0xC0) == 0x80): return None     # the cursor (or the scan stop) is inside a multi-byte character
+    return (i, b[i:off].decode())
 
 def ref_path_segments(text, off):
     b = text.encode(); idx = off
@@ -179,7 +179,9 @@ def _env_tools(W):
     def add_inherent(genv, key, methods):
         te = E.field(E.GE, genv, 'trait_env'); m = E.field(E.TE, te, 'inherent_impls')
         mm = ms.engine.PyMap('index')
-        for x in methods: mm.keys.append(mkstr(x)); mm.vals.append(E.scheme(fty()))
+        for x in methods:
+            nm_, ty_ = x if isinstance(x, tuple) else (x, fty())
+            mm.keys.append(mkstr(nm_)); mm.vals.append(E.scheme(ty_))
         m.keys.append(key); m.vals.append(Agg(E.ID.key, 0, [{'params': PyVec([]), 'methods': mm}[f[0]] for f in E.ID.variants[0].fields]))
     E.ident, E.add_enum, E.add_struct, E.add_fn, E.add_inherent, E.fty = ident, add_enum, add_struct, add_fn, add_inherent, fty
     return E
@@ -272,13 +274,34 @@ def replay_namespace(ns, enums, structs, traits, funcs, inh, got, want):
     nested = [n for n in list(enums) + list(structs) + list(traits) + funcs if n.count('::') > 1 or n.startswith('LibX')]
     return (sorted(offered) != sorted(want)), 'native colon_colon_completions at `%s::` in a project with the same items (names nested deeper than one package - %s - cannot be declared and are left out): %s' % (ns, nested, offered)
 
+def replay_dot(t, got, want):
+    """native dot_completions on a program with the same shape (receiver S or Ref[S]); every offered member is then inserted and type-checked by the real compiler"""
+    import tempfile, os, shutil, subprocess
+    if t not in ('S', 'Ref[S]'): return True, 'list returned by the real functions (MIR); no native program is generated for this receiver shape'
+    d = tempfile.mkdtemp(prefix='vf-c20d-')
+    try:
+        head = 'struct S { x: int32, sy: int32 }\nimpl S {\n    fn sm(self: S) -> unit { () }\n    fn xm(self: S) -> unit { () }\n    fn new_sm() -> unit { () }\n    fn of_sm(s: string) -> unit { () }\n}\nfn main() -> unit {\n    let p = %s;\n' % ('S { x: 1, sy: 2 }' if t == 'S' else 'ref(S { x: 1, sy: 2 })')
+        src = head + '    let _ = p.\n}\n'; f = os.path.join(d, 'main.gom'); open(f, 'w').write(src)
+        rc, out, errt = build.run_driver('vreplay', json.dumps({'fn': 'query_file', 'args': ['dot', f, head.count('\n'), len('    let _ = p.')]}) + '\n', timeout=120)
+        nat = json.loads(out.splitlines()[0]) if out.strip() else {'error': errt[-200:]}
+        offered = (nat.get('ok') or {}).get('dot')
+        if offered is None: return False, 'native dot_completions gave no list: %s' % json.dumps(nat)[:200]
+        rejected = []
+        for m_ in offered:
+            use = 'p.%s' % m_ if m_ in ('x', 'sy') else 'p.%s()' % m_
+            open(f, 'w').write(head + '    let _ = %s;\n    ()\n}\n' % use)
+            pr = subprocess.run([build.compiler_bin(), 'run', '--dump-tast', f], capture_output=True, text=True, timeout=60)
+            if 'error (typer)' in pr.stdout + pr.stderr: rejected.append(use)
+    finally: shutil.rmtree(d, ignore_errors=True)
+    return bool(rejected), 'native dot_completions on `let p = %s; p.` offers %s; inserted and compiled with the real compiler, the type checker rejects %s' % ('S {..}' if t == 'S' else 'ref(S {..})', offered, rejected)
+
 def ob_dot_items(r, tier, seed):
     W = e2.fresh_world(CRATES); E = _env_tools(W)
     for nm in list(W.methods.get('to_pretty', [])): W.stubs[nm[1]] = lambda ex, a: mkstr('<type>')
     W.stubs['to_pretty'] = lambda ex, a: mkstr('<type>')
-    TYS = ['S', 'Lib::S', 'E', 'int32', 'Ref[S]', 'B[int32]', 'Ref[B[int32]]', '(S, S)', 'Vec[S]']
+    TYS = ['S', 'Lib::S', 'E', 'int32', 'Ref[S]', 'B[int32]', 'B[E]', 'Ref[B[int32]]', '(S, S)', 'Vec[S]']
     r.bounds = 'query::normalize_completion_ty + completions_for_type + filter_dot_items on receiver types %s, prefixes "", "x", "s"; structs S {x, sy}, Lib::S {lx}, B {bx}; inherent impls for S {sm, xm}, Lib::S {lm}, E {em}, int32 {im}, B[int32] (exact) {bm} and B (constructor) {cm}; each group present or absent' % TYS
-    r.assumptions = ['tast::Ty::to_pretty is an environment stub', 'oracle: the offered names are exactly the fields of the struct the receiver type (after stripping references) names, followed by the sorted methods of the inherent impls registered for exactly that type or for its constructor, restricted to the names starting with the prefix']
+    r.assumptions = ['tast::Ty::to_pretty is an environment stub', 'oracle (from the property: every offered member type-checks when inserted): the offered names are exactly the fields of the struct the receiver type names, followed by the sorted methods of the inherent impls registered for exactly that type or for its constructor WHOSE FIRST PARAMETER TAKES THE RECEIVER (associated functions without receiver and functions whose first parameter is another type are not callable as x.m()), restricted to the names starting with the prefix; a Ref[T] receiver gets nothing of T (goml has no auto-dereference: r.x and r.m() are rejected by the type checker, confirmed through the CLI)']
     STR = {'S': ['x', 'sy'], 'Lib::S': ['lx'], 'B': ['bx']}
     def ty_of(t):
         if t == 'int32': return E.T('TInt32')
@@ -286,9 +309,12 @@ def ob_dot_items(r, tier, seed):
         if t.startswith('Ref['): return E.T('TRef', ms.engine.mkbox(ty_of(t[4:-1])))
         if t.startswith('Vec['): return E.T('TVec', ms.engine.mkbox(ty_of(t[4:-1])))
         if t.startswith('B['): return E.T('TApp', ms.engine.mkbox(E.T('TStruct', mkstr('B'))), PyVec([ty_of(t[2:-1])]))
+        if t == 'E': return E.T('TEnum', mkstr('E'))
         if t.startswith('('): return E.T('TTuple', PyVec([ty_of('S'), ty_of('S')]))
         return E.T('TStruct', mkstr(t))
+    # per impl: a method taking the receiver (offered), an associated function without parameters and one whose first parameter is another type (both not callable as x.m())
     INH = [('S', ['sm', 'xm']), ('Lib::S', ['lm']), ('E', ['em']), ('int32', ['im']), ('B[int32]', ['bm'])]
+    def mty(first): return E.T('TFunc', PyVec([first] if first is not None else []), ms.engine.mkbox(E.T('TUnit')))
     def entry(ex):
         t = ex.choose([(True, x) for x in TYS]); pre = ex.choose([(True, x) for x in ['', 'x', 's']])
         hs, hi, hc = [ex.choose([(True, True), (True, False)]) for _ in range(3)]
@@ -296,8 +322,9 @@ def ob_dot_items(r, tier, seed):
         if hs:
             for n, fs in STR.items(): E.add_struct(g, n, fs)
         if hi:
-            for n, msn in INH: E.add_inherent(g, Agg(E.IK.key, E.IK.vindex('Exact'), [ty_of(n)]), msn)
-        if hc: E.add_inherent(g, Agg(E.IK.key, E.IK.vindex('Constr'), [mkstr('B')]), ['cm'])
+            for n, msn in INH:
+                E.add_inherent(g, Agg(E.IK.key, E.IK.vindex('Exact'), [ty_of(n)]), [(m_, mty(ty_of(n))) for m_ in msn] + [('new_' + msn[0], mty(None)), ('of_' + msn[0], mty(E.T('TString')))])
+        if hc: E.add_inherent(g, Agg(E.IK.key, E.IK.vindex('Constr'), [mkstr('B')]), [('cm', mty(ty_of('B[E]'))), ('new_cm', mty(None)), ('of_cm', mty(E.T('TString')))])
         ty = ex.call('query::normalize_completion_ty', [ty_of(t)])
         h = {0: g, 1: ty, 2: mkstr(pre)}
         items = ex.call('query::completions_for_type', [Ref(h, 0), Ref(h, 1)])
@@ -310,9 +337,8 @@ def ob_dot_items(r, tier, seed):
             if not any(f.key == 'panic' for f in r.findings): r.findings.append(Finding('panic', 'completions_for_type panics: %s' % str(p.value)[:200], {}, False, 'not replayed'))
             continue
         t, pre, (hs, hi, hc), got = p.value; r.nontrivial += 1
-        base = t
-        while base.startswith('Ref['): base = base[4:-1]
-        sname = base.split('[')[0] if not base.startswith('(') and not base.startswith('Vec') else None
+        base = t                                            # no auto-dereference in goml: `r.x` / `r.m()` on a Ref[T] is rejected by the type checker
+        sname = base.split('[')[0] if base[0] not in '(' and not base.startswith('Vec') and not base.startswith('Ref') else None
         fields = list(STR.get(sname, [])) if hs and sname else []
         meths = []
         if hi: meths += dict(INH).get(base, [])
@@ -321,8 +347,8 @@ def ob_dot_items(r, tier, seed):
         if got != want:
             key = 'offers-nonexistent-member' if set(got) - set(want) else ('misses-member' if set(want) - set(got) else 'order')
             if any(f.key == key for f in r.findings): continue
-            r.findings.append(Finding(key, 'receiver %s, prefix %r (structs %s, inherent impls %s, constructor impl %s): offered %s, existing members %s' % (t, pre, hs, hi, hc, got, want), {'type': t, 'prefix': pre, 'offered': got, 'expected': want}, True,
-                                      'list returned by the real functions (MIR); they are private - natively reachable only through dot_completions after type checking'))
+            ok_, detail = replay_dot(t, got, want)
+            r.findings.append(Finding(key, 'receiver %s, prefix %r (structs %s, inherent impls %s, constructor impl %s): offered %s, existing members %s' % (t, pre, hs, hi, hc, got, want), {'type': t, 'prefix': pre, 'offered': got, 'expected': want}, ok_, detail))
         elif len(r.samples) < 3 and got: r.samples.append({'type': t, 'prefix': pre, 'offered': got})
 
 def obligations():
